@@ -16,6 +16,8 @@ from .common import hx, unhx, load_corpus
 
 ID = "C08"
 ENGINE = "tls"
+# companion pass: the trust flag must read back as set / not set (flag words through the public API, engine conn, C02's policy profile)
+ALSO = [("c02", 300)]
 VARIANT = "std"
 STATEFUL = True
 LEVEL = "proof"
